@@ -257,6 +257,9 @@ theorem compileExpr_good : ∀ (e : Expr ν) (cs cs' : CS ν), compileExpr e cs 
         · injection h with h; subst h; exact good_emit _ _ _
         · split at h
           · exact good_loadConst h
+          · split at h
+            · exact good_loadConst h
+            · cases h
           · cases h
   | .neg e, cs, cs', h => by
     simp only [compileExpr, Res.bind_eq_ok] at h
